@@ -120,7 +120,7 @@ DIRTY_ASSUME = [
     "R9 wrappers: Hash::hash / Hasher::write_u8 / finish / Option::as_deref; R10: derive(Default) for TerseHash replaced by the explicit impl; R18: `for .. in a.iter().chain(b)` split into two consecutive loops with the same body (Verus has no model of iter::Chain)",
     "GraphFiles::id_from_canonical (hash map) and canonicalize_path (uninterpreted function canon) are trusted stubs here; db::Writer::write_build is a stub here whose body is verified in unit db (its D8 width preconditions are not repeated)",
     "explain_hash_build (the -d explain diagnostic) is a stub: it only prints",
-    "whole-history composition (this invocation's record is what the next invocation's check_build_dirty reads) goes through unit db (C08: the record decodes to the same deps and hash) and is argued in DESIGN.md, not machine-checked end to end",
+    "whole-history composition (this invocation's record is what the next invocation's check_build_dirty reads) goes through unit db (C08: the record decodes to the same deps and hash) and is argued in DESIGN.md, not machine-checked end to end; its key step IS a proved lemma: hs::lemma_manifest_inj / lemma_equal_signature -- the fed sequence is unambiguous, so (no collisions) equal signatures imply the same names and mtimes of dirtying inputs, discovered deps and outputs, the same command line and the same response file",
 ]
 PROPS["C02"] = {
     "units": ["dirty"],
@@ -223,7 +223,7 @@ LEVEL_TEXT = {
         "design_ref": "DESIGN.md §6 C20",
     },
     "C02": {
-        "text": "Unbounded proof (Verus) on the real text of hash.rs (build_manifest, hash_build, TerseHash) and work.rs (check_build_dirty, check_build_files_missing, ensure_input_files, stat_all_outputs, record_finished): (1) the signature is hfinish of exactly [dirtying ins (name,mtime)*, sep, discovered ins (name,mtime)*, sep, cmdline, sep, rspfile?, outs (name,mtime)*, sep] -- a spec function taken from the property's list; hashing a missing file is an unreachable panic (precondition discharged at every call); (2) check_build_dirty returns Ok(false) (skip) only for a phony step or when every covered file is present AND a record exists AND the recorded signature equals the signature of the present state; (3) record_finished re-stats every dirtying input, discovered dep and output after the command and writes a record only if none is missing, with the signature of that re-stat'ed state and the new discovered list. For all graphs, file states and reports.",
+        "text": "Unbounded proof (Verus) on the real text of hash.rs (build_manifest, hash_build, TerseHash) and work.rs (check_build_dirty, check_build_files_missing, ensure_input_files, stat_all_outputs, record_finished): (1) the signature is hfinish of exactly [dirtying ins (name,mtime)*, sep, discovered ins (name,mtime)*, sep, cmdline, sep, rspfile?, outs (name,mtime)*, sep] -- a spec function taken from the property's list; hashing a missing file is an unreachable panic (precondition discharged at every call); (2) check_build_dirty returns Ok(false) (skip) only for a phony step or when every covered file is present AND a record exists AND the recorded signature equals the signature of the present state; (3) record_finished re-stats every dirtying input, discovered dep and output after the command and writes a record only if none is missing, with the signature of that re-stat'ed state and the new discovered list. For all graphs, file states and reports.  (4) spec-level lemma: the signature's pre-image is unambiguous (equal fed sequences <=> equal names/mtimes/cmdline/rspfile), so under the no-collision assumption a skipped step has none of these changed since its record.",
         "note": "Whole-history equivalence with a clean build is a composition of (1)-(3) with C08 (log round trip) and C01 (ordering) argued in DESIGN.md; hash collisions and the mtime assumption are outside. Trusted: stat, hasher model, id map.",
         "design_ref": "DESIGN.md §6 C02",
     },
